@@ -122,6 +122,7 @@ func main() {
 		k.timeGrid(v, r.Pick(1500, 60000))
 		k.policyCases(v, r.Pick(600, 30000))
 		k.tcbLevels(v, r.Pick(1500, 50000))
+		k.pckTime(v)
 	}
 	k.nodeLevel()
 
@@ -177,6 +178,7 @@ func (k *checker) replay(path string) {
 			Case     *caseSpec `json:"case"`
 			TCBCase  *tcbCase  `json:"tcb_case"`
 			NodeCase *nodeCase `json:"node_case"`
+			PCKCase  *pckCase  `json:"pck_case"`
 		} `json:"witness"`
 	}
 	if err := json.Unmarshal(raw, &doc); err != nil {
@@ -210,6 +212,13 @@ func (k *checker) replay(path string) {
 		}
 		k.evalTCBCase(doc.Witness.TCBCase)
 		fmt.Printf("REPLAY tcb case done (recorded signature %s)\n", doc.Signature)
+	case doc.Witness.PCKCase != nil:
+		if _, ok := k.c.vectors[doc.Witness.PCKCase.Vector]; !ok {
+			r.Inconclusive("unknown vector %q in replay file", doc.Witness.PCKCase.Vector)
+			break
+		}
+		k.evalPCKCase(doc.Witness.PCKCase)
+		fmt.Printf("REPLAY pck case done (recorded signature %s)\n", doc.Signature)
 	case doc.Witness.NodeCase != nil:
 		k.nodeLevel()
 		fmt.Printf("REPLAY node-level cases re-run (recorded signature %s)\n", doc.Signature)
